@@ -70,9 +70,16 @@ def gen_session(rng, steps=None, faults=True):
             lines.append("poll")
         elif r < 0.88 and faults:
             e = rng.randrange(n_eps + nspec)
-            lines.append("epdisc %d" % e); lines.append("poll")
+            lines.append("epdisc %d" % e)
             if e < n_eps:
                 dead_eps.add(e)
+            # sometimes a second endpoint drops in the very same poll (both Disconnected events are handled
+            # before the next rollback: the resimulation must start at the earlier of the two frames)
+            live = [x for x in range(n_eps) if x not in dead_eps]
+            if live and rng.random() < 0.5:
+                e2 = rng.choice(live)
+                lines.append("epdisc %d" % e2); dead_eps.add(e2)
+            lines.append("poll")
         elif r < 0.90 and faults:
             h = rng.randrange(players + nspec)
             lines.append("disc %d" % h)
@@ -88,6 +95,10 @@ def gen_session(rng, steps=None, faults=True):
 def run_session_correspondence(ctx, n=None, faults=True):
     n = n or (1200 if ctx.thorough else 150)
     script = []
+    # corpus first: minimised scripts of earlier findings (corpus/*.session)
+    import glob, os
+    for f in sorted(glob.glob(os.path.join(os.path.dirname(__file__), "..", "..", "corpus", "*.session"))):
+        script += [l.strip() for l in open(f) if l.strip() and not l.startswith("#")]
     for _ in range(n):
         script += gen_session(ctx.rng, faults=faults)
     canon = lambda a: "panic" if a.startswith("panic") else a
